@@ -130,6 +130,7 @@ type cfgT struct {
 	params   [][2][]byte
 	version  []byte
 	tls      bool
+	tlsEmpty int // without certificates: 0 no TLS configuration at all, 1 an empty configuration, 2 an empty non-nil certificate list, 3 a pre-sized empty list
 	mws      []bool
 	term     string // none ok err
 	parse    []parseEntry
@@ -241,7 +242,7 @@ func (c cfgT) sx() string {
 			pt = append(pt, sx(e.query, sx(ss...)))
 		}
 	}
-	return sx("cfg", sx("limit", c.limit), auth, sx(ps...), sx("version", c.version), sx("tls", c.tls), sx(mws...), sx("term", c.term), sx(pt...))
+	return sx("cfg", sx("limit", c.limit), auth, sx(ps...), sx("version", c.version), sx("tls", c.tls), sx(mws...), sx("term", c.term), sx(pt...), sx("tlsempty", c.tlsEmpty))
 }
 
 func (c *caseT) sxHead() string {
@@ -350,6 +351,9 @@ func caseFrom(n *node) *caseT {
 	}
 	c.cfg.version = unhx(cf.field("version").list[1].atom)
 	c.cfg.tls = cf.field("tls").list[1].atom == "1"
+	if f := cf.field("tlsempty"); f != nil {
+		c.cfg.tlsEmpty = atoi(f.list[1].atom)
+	}
 	for _, m := range cf.field("mws").list[1:] {
 		c.cfg.mws = append(c.cfg.mws, m.atom == "1")
 	}
